@@ -101,6 +101,8 @@ const ( // function parameter error messages
 	fpeParameterNoName         = "parameter %d is missing a name"
 	fpeParameterNoDataType     = "parameter %d is missing a data type"
 	fpeUnexpectedMandatory     = "mandatory parameters (%d) cannot follow optional parameters (%d)"
+	fpeDuplicateDefault        = "parameter %d has more than one default value at %d (%d,%d)"
+	fpeDuplicateDescription    = "parameter %d has more than one description at %d (%d,%d)"
 )
 
 const ( // function parameter contexts
@@ -127,6 +129,7 @@ func ParseMxFunctionParameters(parameters string) ([]MurexFuncParam, error) {
 	var (
 		context int
 		counter int
+		hasDesc bool // the current parameter already has a description
 		x, y    = 0, 1
 	)
 
@@ -184,10 +187,17 @@ func ParseMxFunctionParameters(parameters string) ([]MurexFuncParam, error) {
 			switch context {
 			case fpcDefaultRead:
 				mfp[counter].Default += "\""
-			case fpcDescStart, fpcDescRead:
+			case fpcDescStart:
+				context++
+				hasDesc = true
+			case fpcDescRead:
 				context++
 			case fpcDefaultEnd:
+				if hasDesc {
+					return nil, fmt.Errorf(fpeDuplicateDescription, counter+1, i+1, y, x)
+				}
 				context = fpcDescRead
+				hasDesc = true
 			default:
 				return nil, fmt.Errorf(fpeUnexpectedQuotationMark, r, i+1, y, x)
 			}
@@ -199,6 +209,9 @@ func ParseMxFunctionParameters(parameters string) ([]MurexFuncParam, error) {
 			case fpcDefaultRead:
 				mfp[counter].Default += "["
 			case fpcDescStart, fpcDescEnd:
+				if mfp[counter].HasDefault {
+					return nil, fmt.Errorf(fpeDuplicateDefault, counter+1, i+1, y, x)
+				}
 				context = fpcDefaultRead
 				mfp[counter].HasDefault = true
 			default:
@@ -225,10 +238,12 @@ func ParseMxFunctionParameters(parameters string) ([]MurexFuncParam, error) {
 				mfp[counter].DataType = types.String
 				mfp = append(mfp, MurexFuncParam{})
 				counter++
+				hasDesc = false
 				context = fpcNameStart
 			case fpcTypeRead, fpcDescStart, fpcDescEnd, fpcDefaultEnd:
 				mfp = append(mfp, MurexFuncParam{})
 				counter++
+				hasDesc = false
 				context = fpcNameStart
 			default:
 				return nil, fmt.Errorf(fpeUnexpectedComma, i+1, y, x)
